@@ -168,6 +168,15 @@ fn build(host: Host, dt: DataType, conv: Conv, limits: (f64, f64)) -> A2lFile {
             m.compu_method.push(cm);
             m.compu_method.swap_remove("cm_other1");
             m.compu_method.push(other("cm_other2", -7.0));
+            // renaming an item to the name it already has, and away and back, leaves the list as it was
+            if let Some(i) = m.compu_method.index("cm") {
+                m.compu_method.rename_item(i, "cm_tmp");
+                m.compu_method.rename_item(i, "cm");
+                m.compu_method.rename_item(i, "cm");
+            }
+            if let Some(i) = m.compu_method.index("cm_other0") {
+                m.compu_method.rename_item(i, "cm_other0");
+            }
         } else {
             m.compu_method.push(cm);
         }
